@@ -20,22 +20,34 @@
 (*             what a restart serves                                                                                 *)
 (* Accepted iff the last line is reachable (high-water mark in TLC register 1, DESIGN A.3): -workers 1, StateDeque.    *)
 (* The implementation-layer variables of TSMEngine are not used (they stay at their initial values).                 *)
+(*                                                                                                                  *)
+(* Relaxed = TRUE (used ONLY to classify a trace that the strict validation rejected; known finding                  *)
+(* stale_value_during_inflight_delete): a read that takes its step while a range delete of the same series is in      *)
+(* flight may, for each point of that delete's range, return no value or ANY value a write of the trace ever stored    *)
+(* there (the delete tombstones the TSM files one by one in parallel: with the newest file already masked and an older  *)
+(* one not yet, the cursor serves the older file's overwritten value). Every other point stays exact.                *)
 EXTENDS TSMEngine, Json
+
+CONSTANT Relaxed
 
 VARIABLES l,       \* next trace line
           pend,    \* thread -> operation in flight
-          closed   \* the shard was closed
+          closed,  \* the shard was closed
+          ever     \* Keys -> Times -> set of the values ever stored by a write step
 
-tvars == <<vars, l, pend, closed>>
+tvars == <<vars, l, pend, closed, ever>>
 
 Trace == ndJsonDeserialize("trace.ndjson")
 N == Len(Trace)
 Threads == {"t1", "t2", "t3", "t4", "t5", "t6"}
+NoEver == [t \in Times |-> {}]
+NoSnap == [t \in Times |-> None]
 NoOp == [op |-> "none", pts |-> <<>>, k |-> 0, lo |-> 0, hi |-> 0, asc |-> TRUE, todo |-> {}, started |-> FALSE,
-         done |-> FALSE, ok |-> TRUE, res |-> <<>>]
+         done |-> FALSE, ok |-> TRUE, res |-> <<>>, loose |-> {}, evr |-> NoEver, snp |-> NoSnap]
 SetOfSeq(q) == {q[i] : i \in 1..Len(q)}
 
 TInit == /\ TLCSet(1, 0) /\ Init /\ l = 1 /\ pend = [t \in Threads |-> NoOp] /\ closed = FALSE
+         /\ ever = [k \in Keys |-> NoEver]
 
 Impl == <<hot, snap, sj, files, nextGen, wal, cj, dj, wj, written, dead, nw, ns, nc, nd, nr, hist>>
 
@@ -49,7 +61,7 @@ OpOf(ln) ==
 TCall == /\ l <= N /\ Trace[l].ev = "call"
          /\ pend[Trace[l].t] = NoOp
          /\ pend' = [pend EXCEPT ![Trace[l].t] = OpOf(Trace[l])]
-         /\ l' = l + 1 /\ UNCHANGED <<model, closed, Impl>>
+         /\ l' = l + 1 /\ UNCHANGED <<model, closed, ever, Impl>>
 
 HalfApplied(p) == p.op \in {"write", "delete"} /\ p.started /\ ~p.done
 
@@ -61,6 +73,7 @@ Lin(t) ==
              LET mine == SelectSeq(p.pts, LAMBDA x : x[1] = k)
                  rest == p.todo \ {k}
              IN /\ model' = ApplyPts(model, mine)
+                /\ ever' = [ever EXCEPT ![k] = [u \in Times |-> @[u] \cup {mine[i][3] : i \in {j \in 1..Len(mine) : mine[j][2] = u}}]]
                 /\ pend' = [pend EXCEPT ![t].todo = rest, ![t].started = TRUE, ![t].done = (rest = {})]
         /\ UNCHANGED closed
      \/ /\ p.op = "delete" /\ (~closed \/ p.started)
@@ -68,43 +81,56 @@ Lin(t) ==
              LET rest == p.todo \ {u}
              IN /\ model' = [model EXCEPT ![p.k][u] = None]
                 /\ pend' = [pend EXCEPT ![t].todo = rest, ![t].started = TRUE, ![t].done = (rest = {})]
-        /\ UNCHANGED closed
+        /\ UNCHANGED <<closed, ever>>
      \/ /\ p.op = "read" /\ ~closed
-        /\ pend' = [pend EXCEPT ![t].done = TRUE, ![t].res = ReadFrom(model, p.k, p.lo, p.hi, p.asc)]
-        /\ UNCHANGED <<model, closed>>
+        /\ pend' = [pend EXCEPT ![t].done = TRUE, ![t].res = ReadFrom(model, p.k, p.lo, p.hi, p.asc),
+                                ![t].snp = model[p.k], ![t].evr = ever[p.k],
+                                ![t].loose = {u \in Times : \E d \in Threads : /\ pend[d].op = "delete" /\ pend[d].k = p.k
+                                                                              /\ InRange(u, pend[d].lo, pend[d].hi)}]
+        /\ UNCHANGED <<model, closed, ever>>
      \/ /\ p.op \in {"write", "delete", "read"} /\ closed /\ ~p.started
         /\ pend' = [pend EXCEPT ![t].done = TRUE, ![t].ok = FALSE]
-        /\ UNCHANGED <<model, closed>>
+        /\ UNCHANGED <<model, closed, ever>>
      \/ /\ p.op \in {"snapshot", "compact", "backup"}
         /\ pend' = [pend EXCEPT ![t].done = TRUE]
-        /\ UNCHANGED <<model, closed>>
+        /\ UNCHANGED <<model, closed, ever>>
      \/ /\ p.op = "close"
         /\ \A u \in Threads : ~HalfApplied(pend[u])
         /\ closed' = TRUE
         /\ pend' = [pend EXCEPT ![t].done = TRUE]
-        /\ UNCHANGED model
+        /\ UNCHANGED <<model, ever>>
   /\ UNCHANGED <<l, Impl>>
 
 TLin == \E t \in Threads : Lin(t)
+
+\* Relaxed only: the logged points are in time order inside the range; a point outside the ranges of the deletes that were in
+\* flight at the read's step is exactly the model's, a point inside is absent or any value ever stored there
+LooseMatch(p, got) ==
+  LET n == Len(got)
+      At(u) == IF \E i \in 1..n : got[i][1] = u THEN got[CHOOSE i \in 1..n : got[i][1] = u][2] ELSE None
+  IN /\ \A i \in 1..n : InRange(got[i][1], p.lo, p.hi)
+     /\ \A i \in 1..(n - 1) : IF p.asc THEN got[i][1] < got[i + 1][1] ELSE got[i][1] > got[i + 1][1]
+     /\ \A u \in {v \in Times : InRange(v, p.lo, p.hi)} :
+           IF u \in p.loose THEN At(u) \in p.evr[u] \cup {None} ELSE At(u) = p.snp[u]
 
 TRet == /\ l <= N /\ Trace[l].ev = "ret"
         /\ LET t == Trace[l].t
                p == pend[t]
            IN /\ p.op # "none" /\ p.done
               /\ p.op \in {"write", "delete", "read"} => p.ok = Trace[l].ok
-              /\ (p.op = "read" /\ p.ok) => p.res = Trace[l].res
+              /\ (p.op = "read" /\ p.ok) => IF Relaxed THEN LooseMatch(p, Trace[l].res) ELSE p.res = Trace[l].res
               /\ pend' = [pend EXCEPT ![t] = NoOp]
-        /\ l' = l + 1 /\ UNCHANGED <<model, closed, Impl>>
+        /\ l' = l + 1 /\ UNCHANGED <<model, closed, ever, Impl>>
 
 \* after Close and a reopen: every key reads exactly the model
 TFinal == /\ l <= N /\ Trace[l].ev = "final"
           /\ \A t \in Threads : pend[t] = NoOp
           /\ \A k \in Keys : ReadFrom(model, k, MinT, MaxT, TRUE) = Trace[l].all[k]
-          /\ l' = l + 1 /\ UNCHANGED <<model, pend, closed, Impl>>
+          /\ l' = l + 1 /\ UNCHANGED <<model, pend, closed, ever, Impl>>
 
 TReset == /\ l <= N /\ Trace[l].ev = "reset"
           /\ \A t \in Threads : pend[t] = NoOp
-          /\ model' = Empty /\ closed' = FALSE
+          /\ model' = Empty /\ closed' = FALSE /\ ever' = [k \in Keys |-> NoEver]
           /\ l' = l + 1 /\ UNCHANGED <<pend, Impl>>
 
 TNext == TCall \/ TLin \/ TRet \/ TFinal \/ TReset
